@@ -242,11 +242,13 @@ def search(rng, tier, broken, corr):
     t0 = time.time()
     info = {"rule": "every grading of corpus + seeded random histories (instructor scripts assembled from %d state-touching "
                     "fragments incl. crashes at any position, %d submissions, environments standard/blockpy/terminal/gradescope, "
-                    "skip_tifa/skip_run, immediate repetitions), run by Bundle.run_ics_bundle one after the other in ONE "
+                    "skip_tifa/skip_run, immediate repetitions; plus every fragment, alone and followed by a crash, right "
+                    "before each of %d probe gradings - all fragments in thorough, 6 sampled ones in quick), run by "
+                    "Bundle.run_ics_bundle one after the other in ONE "
                     "interpreter, compared with the same grading run first in a FRESH interpreter on (label, title, message, "
                     "correct, score), the captured output and the class of the error; plus %d submissions that change the "
                     "interpreter itself, each followed by a probe" % (len(gen.FRAGMENTS), len(gen.SUBMISSIONS),
-                                                                    len(gen.INTERPRETER_STATE)),
+                                                                    len(gen.PROBES), len(gen.INTERPRETER_STATE)),
             "evaluations": 0, "distinct_nontrivial": 0, "samples": [], "skipped": {}}
     n_pool = (70 if tier == "quick" else 900) * (2 if broken else 1)
     n_hist = (8 if tier == "quick" else 70) * (2 if broken else 1)
@@ -261,6 +263,9 @@ def search(rng, tier, broken, corr):
             if rng.random() < 0.08:
                 h.append(g)                     # the same pair twice in a row
         histories.append(("random-%d" % k, h))
+    # every fragment (also followed by a crash) right before every probe: all of them in thorough, a sample in quick
+    frs = list(gen.PLAIN) if tier == "thorough" else rng.sample(gen.PLAIN, 6)
+    histories += gen.systematic_histories(frs)
     for name, a, b in gen.INTERPRETER_STATE:
         histories.append(("interpreter:" + name, [
             {"frags": ["nothing"], "sub": name, "script": gen.H, "code": a, "env": "standard"},
